@@ -20,7 +20,31 @@ from lib.terms import g_str, g_list, g_nat, g_bool, g_pair
 
 ID = 'C08'
 IMPORTS = ['Engine.Resolve', 'Engine.RunResolve']
-THEOREMS = []
+THEOREMS = [
+    'C08_lookup_spec',
+    'C08_unknown_predicate_fails',
+    'C08_exact_over_variadic',
+    'C08_variadic_only_without_exact',
+    'C08_key_determines_name_and_arity',
+    'C08_other_arity_never',
+    'C08_reserved_exact',
+    'C08_reserved_only_facts',
+    'C08_predicate_keys_never_api_names',
+    'C08_load_get',
+    'C08_load_overwrite_exact',
+    'C08_load_chain_order',
+    'C08_load_frame',
+    'C08_load_fail_atomic',
+    'C08_register_get',
+    'C08_chain_cut_local',
+    'C08_chain_concat',
+    'C08_chain_raise_stops',
+    'C08_late_binding',
+    'C08_load_order_irrelevant',
+    'C08_late_resolution',
+    'C08_resolved_call_keeps_definitions',
+    'C08_call_time_resolution_refuted',
+    'C08_drain_is_constant_schedule']
 FUEL = 12
 LIM = 14
 CASE_TIMEOUT = 20
